@@ -9,7 +9,7 @@ open UtilModel UtilModel.Seq
 mathematical sum of the returned counts modulo 2^64 -/
 def Inv (s : St) : Prop := s.guardOk = true → 0 ≤ s.sum ∧ s.total = s.sum % two64
 
-theorem addTotal_sum (total sum n : Int) (h0 : 0 ≤ sum) (ht : total = sum % two64)
+theorem addTotal_sum (total sum n : Int) (_h0 : 0 ≤ sum) (ht : total = sum % two64)
     (hn0 : 0 ≤ n) (hn1 : n ≤ maxU32) : addTotal total n = (sum + n) % two64 := by
   unfold addTotal
   by_cases hp : 0 < n
